@@ -46,9 +46,13 @@ def _pexpr(rng, pnames, depth=0):
         return "%s*%s" % (_num(rng).lstrip("-"), rng.choice(pnames))
     if r < 0.8:
         return "%s %s %s" % (_pexpr(rng, pnames, depth + 1), rng.choice("+-"), _pexpr(rng, pnames, depth + 1))
-    if r < 0.9:
+    if r < 0.88:
         return "(%s)*%s" % (_pexpr(rng, pnames, depth + 1), rng.choice(pnames))
-    return "-%s" % rng.choice(pnames)
+    if r < 0.95 and "pq0" in pnames:
+        # a quotient: not affine in the parameters.  The divisor parameter only takes powers of two (its declared
+        # value and every evaluation point), so the result is exact however CasADi orders the operations
+        return "%s / pq0" % rng.choice([q for q in pnames if q != "pq0"] + [_num(rng).lstrip("-")])
+    return "-%s" % rng.choice([q for q in pnames if q != "pq0"] or pnames)
 
 
 def gen_model(rng, name="M", size=None, want=None):
@@ -68,6 +72,10 @@ def gen_model(rng, name="M", size=None, want=None):
             decl.append("parameter Real %s;" % n)
             feats.add("free-parameter")
         preal.append(n)
+    if rng.random() < 0.35 or "quotient" in want:
+        decl.append("parameter Real pq0%s;" % rng.choice([" = 0.5", " = 2", " = 4", " = 0.25", " = -2", ""]))
+        preal.append("pq0")
+        feats.add("divisor-parameter")
     if rng.random() < 0.5 or "dependent-parameter" in want:
         n = "pd0"
         decl.append("parameter Real %s = %s;" % (n, _pexpr(rng, preal)))
@@ -116,8 +124,9 @@ def gen_model(rng, name="M", size=None, want=None):
                     mods.append("each %s = %s" % (a, e))
                     feats.add("array-each-attr")
                 else:
-                    # pymoca's generator only accepts numeric literals inside an array-valued modification
-                    mods.append("%s = {%s}" % (a, ", ".join(_num(rng) for _ in range(arr))))
+                    # symbolic elements are accepted since e418650 / a4e134c
+                    mods.append("%s = {%s}" % (a, ", ".join(_pexpr(rng, preal_all, 1) if rng.random() < 0.5 else _num(rng)
+                                                           for _ in range(arr))))
                     feats.add("array-elementwise-attr")
             else:
                 mods.append("%s = %s" % (a, e))
@@ -296,11 +305,12 @@ def pyval(v):
 
 
 def points(n_sym_total, npts, seed):
-    """Deterministic exact evaluation points: values k/4, k in [-12, 12] \\ {0}."""
+    """Deterministic exact evaluation points: signed powers of two 2^-2 .. 2^3 (sums, products and quotients
+    of a few of them are exact in doubles, in any order of evaluation)."""
     import random
     r = random.Random(seed)
-    ks = [k for k in range(-12, 13) if k != 0]
-    return [[r.choice(ks) / 4.0 for _ in range(n_sym_total)] for _ in range(npts)]
+    ks = [s * 2.0 ** e for e in range(-2, 4) for s in (1, -1)]
+    return [[r.choice(ks) for _ in range(n_sym_total)] for _ in range(npts)]
 
 
 def signature(m, npts=2, seed=0):
@@ -501,9 +511,17 @@ FLIP_KEYS = ["expand_vectors", "detect_aliases", "eliminate_constant_assignments
 
 
 def flip(opts, key):
+    """The other value of a Boolean option; a key that is not among pymoca's defaults goes absent <-> True."""
     from pymoca.backends.casadi._options import _get_default_options
     o = dict(opts)
-    o[key] = not dict(_get_default_options(), **opts)[key]
+    cur = dict(_get_default_options(), **opts)
+    if key in cur:
+        if key in _get_default_options():
+            o[key] = not cur[key]
+        else:
+            del o[key]
+    else:
+        o[key] = True
     return o
 
 
@@ -531,8 +549,11 @@ class CacheWorld:
 
     BASE_NS = 1_600_000_000 * 10**9
 
-    def __init__(self, root, name="M", nfolders=3, step_ns=10**6, version_marker=False):
+    def __init__(self, root, name="M", nfolders=3, step_ns=10**6, version_marker=False, base_ns=None):
         from pymoca.backends.casadi import api
+        if base_ns is not None:
+            self.BASE_NS = base_ns
+        self.links = {}
         self.api = api
         self.root, self.name, self.step_ns = root, name, step_ns
         self.dirs = [os.path.join(root, "f%d" % i) for i in range(nfolders)]
@@ -602,10 +623,20 @@ class CacheWorld:
             return None
 
     # ---- the operations of a history ---------------------------------------------------------
+    def symlink(self, folder, rel, target_folder):
+        """`<folder>/<rel>` becomes a symbolic link to the directory of `target_folder`: files written there
+        are, for the model, files of `folder` below `rel/`."""
+        os.symlink(self.dirs[target_folder], os.path.join(self.dirs[folder], rel), target_is_directory=True)
+        self.links[target_folder] = (folder, rel)
+
     def write(self, folder, rel, text, dt=1):
         t = self.tick(dt)
         write_file(os.path.join(self.dirs[folder], rel), text, self.ns(t))
-        self.model_ops.append(["write", folder, rel, t, self.content_id(text)])
+        if folder in self.links:
+            lf, lrel = self.links[folder]
+            self.model_ops.append(["write", lf, lrel + "/" + rel, t, self.content_id(text)])
+        else:
+            self.model_ops.append(["write", folder, rel, t, self.content_id(text)])
         return t
 
     def set_version(self, v):
